@@ -416,6 +416,10 @@ func coalesceUDPPackets(pkt []byte, item *udpGROItem, bufs [][]byte, bufsOffset 
 	headersLen := item.iphLen + udphLen
 	coalescedLen := len(bufs[item.bufsIndex][bufsOffset:]) + len(pkt) - int(headersLen)
 
+	if coalescedLen > maxUint16 {
+		// The 16-bit length fields of the IP and UDP headers cannot express this.
+		return coalesceInsufficientCap
+	}
 	if cap(pktHead)-bufsOffset < coalescedLen {
 		// We don't want to allocate a new underlying array if capacity is
 		// too small.
@@ -445,6 +449,10 @@ func coalesceTCPPackets(mode canCoalesce, pkt []byte, pktBuffsIndex int, gsoSize
 	var pktHead []byte // the packet that will end up at the front
 	headersLen := item.iphLen + item.tcphLen
 	coalescedLen := len(bufs[item.bufsIndex][bufsOffset:]) + len(pkt) - int(headersLen)
+	if coalescedLen > maxUint16 {
+		// The 16-bit length field of the IP header cannot express this.
+		return coalesceInsufficientCap
+	}
 
 	// Copy data
 	if mode == coalescePrepend {
